@@ -96,6 +96,17 @@ class C01(Prop):
                 tail = bytes(G.enc(k, 0x56, 0x45, 48, 5, b"")) if rng.random() < 0.5 else b""
                 st = bytes(fb) + tail
                 cases.append({"kind": "no-start+inner68:" + where, "stream": list(st), "chunks": None if rng.random() < 0.6 else chunking(rng, len(st))})
+        # sessions on ONE reader object: runs of intact frames drawn from a few (recipient, sender) pairs, so that consecutive
+        # frames often carry the same addresses (bus chatter between other devices, a repeated unknown sender, ...)
+        pairs = [(0x56, 0x45), (0x00, 0x45), (0x45, 0x51), (0x51, 0x45), (0x56, 0x33), (0x45, 0x33), (0x56, 0x51), (0x10, 0x45)]
+        for _ in range(200 if tier == "quick" else 3000):
+            pool = rng.sample(pairs, rng.choice([1, 2, 2, 3]))
+            st = b""
+            for _ in range(rng.randrange(2, 6)):
+                rc, sd = rng.choice(pool)
+                k = rng.choice(kinds) if rng.random() < 0.85 else 0x99
+                st += G.enc(k, rc, sd, 48, 5, G.rand_payload(rng, rng.choice([0, 1, 2, 5])))
+            cases.append({"kind": "session:same-addresses", "stream": list(st), "chunks": None if rng.random() < 0.5 else chunking(rng, len(st))})
         for _ in range(n):
             parts = []
             kindtag = []
